@@ -35,6 +35,11 @@ theorem exit_catchable_no_duplicates : Extracted.catchableDefault.Nodup := by de
 
 theorem exit_life_params_repaired : Extracted.lifeParams = LParams.repaired := by decide
 
+/-- `Backend::stop()` and the `atexit` handler of the signal-handler overload, flattened through `stop_backend_thread` and
+    `BackendWorker::stop`, take their steps in the order the interleaving theorems are about: stop request, wake, join,
+    forget the worker id, fresh once-flag — and only then clear the id the signal handler reads -/
+theorem exit_stop_sequence : Extracted.stopSeq = stopSeqCurrent ∧ Extracted.atexitSeq = stopSeqCurrent := by decide
+
 theorem exit_wait_for_queues_default : Extracted.waitForQueuesDefault = true := by decide
 
 /-- `run`: init, set the running flag, poll while it is set, then `_exit()` and nothing else; the starter waits for
@@ -119,5 +124,37 @@ theorem C07_program_extracted (ops : List POp) (hne : noExit ops = true) :
     have := C07_program_signal ops hne thread s pr true true hctx hthr
     rw [this]
     cases hg : s.graceful <;> simp [notices, Life.env, hg]
+
+/-- a handled signal while another thread is inside `Backend::stop()` or the process is inside the `atexit` stop, for
+    the step order as extracted: served at every point before the backend thread's last look at the queues -/
+theorem C07_signal_during_stop_extracted (viaAtexit wait : Bool) (s : Sig) (pr : Bool) (earlier : List Nat) (w q : List Item)
+    (hsplit : w ++ q = earlier.map Item.stmt) (pre mid : List Ev) :
+    let seq := if viaAtexit then Extracted.atexitSeq else Extracted.stopSeq
+    let a := (CS.init { queue := q, written := w }).run seq wait pre
+    let b := a.run seq wait mid
+    a.pc < 6 → b.serving = true →
+    signalDuringStop wait true true s pr a b =
+      ({ queue := [], written := earlier.map Item.stmt ++ loggedEv (pre ++ mid) ++ notices { backendRunning := true } s },
+       if s.graceful then .exit0 else .diedBy s) := by
+  have hseq : (if viaAtexit then Extracted.atexitSeq else Extracted.stopSeq) = stopSeqCurrent := by
+    cases viaAtexit
+    · exact exit_stop_sequence.1
+    · exact exit_stop_sequence.2
+  rw [hseq]
+  exact C07_signal_during_stop_served wait true true s pr earlier w q hsplit pre mid
+
+/-- whichever way the handler as extracted waits for its flush request — `flush_log(0)`, for ever (the current code), or
+    until the backend thread is gone (`flushEndsWhenBackendGone`, the candidate repair of F27) — at every point of
+    `stop()` before the backend thread's last look at the queues the outcome is the one of `C07_signal_during_stop_served`;
+    after that look it is F27 (`C07_signal_during_stop_after_last_look_hangs`) resp. `C07_F27_repair_never_hangs` -/
+theorem C07_signal_during_stop_extracted_flush (wait info crit : Bool) (s : Sig) (pr : Bool) (f : Fe) (pre mid : List Ev) :
+    let a := (CS.init f).run stopSeqCurrent wait pre
+    let b := a.run stopSeqCurrent wait mid
+    a.pc < 6 → b.serving = true →
+    signalDuringStopG Extracted.flushEndsWhenBackendGone wait info crit s pr a b = signalDuringStop wait info crit s pr a b := by
+  intro a b ha hb
+  cases Extracted.flushEndsWhenBackendGone
+  · rfl
+  · exact (C07_F27_repair_never_hangs wait info crit s pr f pre mid ha).2.1 hb
 
 end Obligations
